@@ -75,9 +75,17 @@ fn main() {
                     println!("job {job}: {}", ctx.describe(job));
                     ctx.run_job(job, &mut agg)
                 }
+                "c15srv" => {
+                    let ctx = c15::SrvCtx::new();
+                    println!("job {job}: {}", ctx.describe(job));
+                    ctx.run_job(job, &mut agg)
+                }
                 _ => usage(),
             }
             println!("finished in {:.2}s; classes: {:?}; counters: {:?}", t0.elapsed().as_secs_f64(), agg.classes.keys().collect::<Vec<_>>(), agg.counters);
+            if !agg.classes.is_empty() {
+                std::process::exit(1);
+            }
         }
         "iso-worker" => {
             let wa = isolate::parse_worker_args(&args[2..]);
@@ -89,6 +97,10 @@ fn main() {
                 }
                 "c15" => {
                     let ctx = c15::IsoCtx::new(thorough);
+                    isolate::worker_loop(wa.njobs, wa.offset, wa.stride, wa.start, &wa.skip, &wa.ckpt, &wa.progress, 6, |j, agg| ctx.run_job(j, agg));
+                }
+                "c15srv" => {
+                    let ctx = c15::SrvCtx::new();
                     isolate::worker_loop(wa.njobs, wa.offset, wa.stride, wa.start, &wa.skip, &wa.ckpt, &wa.progress, 6, |j, agg| ctx.run_job(j, agg));
                 }
                 k => {
